@@ -2,7 +2,7 @@
    byte-equal to the flattened spec line (each cell line unmodified in its own
    slot, padded per the effective alignment, declared width / height
    honoured), and there are as many lines as the layout says. *)
-From Tab Require Export Run.C03Run.
+From Tab Require Export Run.C03Run Model.TextPass.
 
 Fixpoint content_lines_ok (impl : list (list N)) (spec : list line) : bool :=
   match impl, spec with
@@ -23,8 +23,18 @@ Definition C04_ok1 (t : wtab) (v : view) (dc : dcase) : bool :=
     end
   else true.
 
-Definition C04_case (c : text_case) : N :=
-  let '(t, v, ds, flag) := c in
+(* A case is a text case plus the alignment writes the application's
+   render-time callbacks made (in execution order, up to the moment the judged
+   output was produced; the harness logs them as its callbacks perform them).
+   The view of the case is the table as BUILT (computed from the spec); the
+   render is judged - and the model run - on the view after the callbacks
+   (Model/TextPass.v after_callbacks; c04_pass_refines, c04_pass_alignment). *)
+Definition c04_case := (text_case * list cbwrite)%type.
+
+Definition C04_case (c : c04_case) : N :=
+  let '((t, v0, ds, flag), ws) := c in
+  let v := after_callbacks ws v0 in
   code (forallb (corr1 t v) ds && domain_agrees t v ds flag) (forallb (C04_ok1 t v) ds).
 
-Definition C04_model (c : text_case) : list (res (list N)) := C03_model c.
+Definition C04_model (c : c04_case) : list (res (list N)) :=
+  let '((t, v0, ds, flag), ws) := c in C03_model (t, after_callbacks ws v0, ds, flag).
